@@ -1,6 +1,7 @@
 // TRUSTED CONTRACTS (DESIGN.md §3.2): specified, not verified. Audited by bounded Kani harnesses (kani/deps).
 pub mod micromap {
     use vstd::prelude::*;
+    use vstd::std_specs::iter::IteratorSpec;
     use core::marker::PhantomData;
     #[verifier::external_body]
     #[verifier::accept_recursive_types(K)]
@@ -45,7 +46,13 @@ pub mod micromap {
         pub fn capacity(&self) -> (r: usize) ensures r == N { unimplemented!() }
 
         #[verifier::external_body]
-        pub fn iter(&self) -> (r: Iter<'_, K, V>) ensures r.src() == self.view(), r.pos() == 0 { unimplemented!() }
+        pub fn iter(&self) -> (r: Iter<'_, K, V>)
+            ensures
+                r.src() == self.view(), r.pos() == 0,
+                // the same fact in the vocabulary of vstd's generic iterator model (for callers that see `impl Iterator` only)
+                r.obeys_prophetic_iter_laws(), r.remaining().len() == self.view().len(),
+                forall|i: int| 0 <= i < self.view().len() ==> *(#[trigger] r.remaining()[i]).0 == self.view()[i].0 && *r.remaining()[i].1 == self.view()[i].1,
+        { unimplemented!() }
     }
     /// the pairs live in a fixed array of N slots
     pub broadcast axiom fn axiom_len_le_capacity<K, V, const N: usize>(m: Map<K, V, N>)
